@@ -7,6 +7,7 @@ IDS=${@:-$(ls seeded)}
 FAIL=0
 for ID in $IDS; do
   P=$(python3 -c "import json;print(json.load(open('seeded/$ID/meta.json'))['property'])")
+  if python3 -c "import json,sys;sys.exit(0 if json.load(open('seeded/$ID/meta.json')).get('obsolete') else 1)"; then echo "skipped $ID ($P): obsolete (equivalent after a later repair)"; continue; fi
   OUT=$(lib/mutant_test.sh seeded/$ID/patch.diff $P 2>&1)
   if echo "$OUT" | grep -q "VIOLATION property=$P"; then echo "caught  $ID ($P)"; else echo "MISSED  $ID ($P)"; echo "$OUT" | tail -3; FAIL=1; fi
 done
